@@ -109,7 +109,13 @@ def build_traces(path, tier, seed):
                 oin = eqsig.AccSignal(x.copy(), dt)
                 o = tp.interp_to_approx_dt(oin, target, even=gen.flag(rng, even))
                 if rng.integers(2):
-                    # history: the same array / object again (also after a Fourier resample of the same object); the LAST results count
+                    # history: the same array / object again (also after a Fourier resample of the same object, and after its
+                    # values were changed without changing its length); the LAST results count
+                    if rng.integers(2):
+                        c_ = float(rng.uniform(0.5, 5.0)) * (float(np.max(np.abs(x))) + 1.0)
+                        oin.add_constant(c_)
+                        x = np.asarray(oin.values, dtype=float).copy()
+                        xin = x.copy()
                     y, ndt = tp.interp_array_to_approx_dt(xin, dt, target, even=gen.flag(rng, even))
                     try:
                         tp.resample_to_approx_dt(oin, target, even=gen.flag(rng, even))
@@ -127,7 +133,13 @@ def build_traces(path, tier, seed):
     for i in range(nfou):
         dt = [0.01, 0.02, 0.005, 0.5, 0.004][i % 5]
         mode = i % 4
-        if mode == 0:
+        if rng.integers(6) == 0:
+            # decimation by a large ratio whose reciprocal does not round-trip ((1/k)*(k*m) lands one ulp below m), length an exact multiple
+            mode = 4
+            k = int(rng.choice([49, 98, 103, 107, 161, 187]))
+            dt = float(rng.choice([0.001, 0.002, 0.01]))
+            target, n = round(dt * k, 7), k * int(rng.choice([4, 6, 7, 8, 12, 5, 9]))
+        elif mode == 0:
             target, n = dt, int(rng.integers(8, 120))
         elif mode == 1:
             k = int(rng.integers(2, 6))
@@ -138,7 +150,7 @@ def build_traces(path, tier, seed):
         else:
             k = int(rng.integers(2, 6))
             target, n = dt * k * float(rng.uniform(1.0, 1.3)), k * int(rng.integers(4, 40)) + int(rng.integers(0, k))
-        even = bool(i % 3 == 0)
+        even = bool(rng.integers(3) == 0) and mode != 4
         # band limit: below the Nyquist frequency of the coarser of (input, output) grids
         ratio = max(1.0, target / dt)
         kmax = max(0, int((n / ratio) / 2) - 2)
